@@ -216,6 +216,12 @@ def rewrite(src, dst_dir, plan):
     if plan.get("container") == "package":
         folder = dst_dir / "rewritten.numbers"
         folder.mkdir()
+        # a zip that wraps a package folder (issue-32: every name starts with "mac.numbers/") becomes that folder
+        tops = {n.split("/", 1)[0] for n, _ in out if not n.startswith("Index/")}
+        if len(tops) == 1 and next(iter(tops)).endswith(".numbers"):
+            top = next(iter(tops)) + "/"
+            out = [(n[len(top):] if n.startswith(top) else n, d) for n, d in out]
+        out = [(n, d) for n, d in out if n and not n.endswith("/")]
         buf = io.BytesIO()
         with zipfile.ZipFile(buf, "w") as z:
             for n, d in out:
